@@ -425,7 +425,89 @@ func generateKeyPairRule(P *Program, R *Report) {
 		R.decide(rule, kGenKey+":S-source", "S is drawn as RandomBigInt(Ln)", okS, desc(sv), P.Pos(sStore.Pos()))
 	}
 	// Z and R[i]: Exp(S, x, N) with x fresh and 2 < x < N
-	checkPower := func(name string, expCall *ssa.Call, inLoop bool) {
+	// the list that becomes pk.R (filled in place, or built as a local and assigned afterwards)
+	var rList ssa.Value
+	for _, s := range sinksOf(fn) {
+		if s.target == "new:gabikeys.PublicKey.R" {
+			rList = s.val
+			if ct, ok := rList.(*ssa.ChangeType); ok {
+				rList = ct.X
+			}
+		}
+	}
+	var checkPower func(name string, expCall *ssa.Call, inLoop bool)
+	checkPower = func(name string, expCall *ssa.Call, inLoop bool) {
+		// the whole "draw x, test it, raise S to it" may sit in an unexported helper that returns the power: then the
+		// helper is examined in place of this function, with its parameters bound to the call's arguments; the call must
+		// sit in the per-base loop and its error must have been tested before the result is used
+		if expCall == nil {
+			target := "new:gabikeys.PublicKey.Z"
+			if inLoop {
+				target = ""
+			}
+			for _, s := range sinksOf(fn) {
+				isTarget := s.target == target
+				if inLoop {
+					if ia, ok := s.ins.(*ssa.Store); ok {
+						if idx, isIA := ia.Addr.(*ssa.IndexAddr); isIA {
+							x := idx.X
+							if ct, ok := x.(*ssa.ChangeType); ok {
+								x = ct.X
+							}
+							isTarget = (rList != nil && x == rList) || strings.Contains(s.target, ".R[")
+						}
+					}
+				}
+				if !isTarget {
+					continue
+				}
+				hc, idx := callAndResult(s.val)
+				if hc == nil || idx != 0 {
+					continue
+				}
+				h := staticCallee(hc)
+				if h == nil || !inModuleFn(h) || h.Blocks == nil || (h.Object() != nil && h.Object().Exported()) {
+					continue
+				}
+				var inner *ssa.Call
+				for _, ret := range returnsOf(h) {
+					if c, ok := origin(retValue(ret, 0)).(*ssa.Call); ok && bigMethod(c) == "Exp" {
+						inner = c
+					}
+				}
+				if inner == nil {
+					continue
+				}
+				if inLoop && innermostLoopOf(hc.Block()) == nil {
+					R.bad(rule, kGenKey+":"+name+":fresh-x", "its exponent x is a fresh RandomBigInt drawn for this base", "the helper is called outside the loop over the bases", P.Pos(hc.Pos()))
+					return
+				}
+				hacc, okAcc := accOfFn(h, Nil)
+				checked := mpResult{}
+				if okAcc {
+					// (the result may be stored first and the error tested right after: what matters is that no key is
+					// returned when the helper failed)
+					facc, okF := accOfFn(fn, Nil)
+					if okF {
+						q := &MustPass{P: P, NoInterproc: true, Match: func(at Atom) bool {
+							c2, i2 := callAndResult(at.V)
+							return c2 == hc && i2 == hacc.Result && at.Want == Nil
+						}}
+						if l := innermostLoopOf(hc.Block()); inLoop && l != nil {
+							checked = q.ForAllBody(fn, l, facc, false) // every iteration that goes on tested it
+						} else {
+							checked = q.Check(fn, facc)
+						}
+					}
+				}
+				R.decide(rule, kGenKey+":"+name+":helper-error-tested", "a key is returned only if the helper that computes "+name+" reported no error", okAcc && checked.Holds, checked.Path, P.Pos(hc.Pos()))
+				outer := fn
+				fn = h
+				bindCall(hc, h, func() { checkPower(name, inner, false) })
+				fn = outer
+				return
+			}
+		}
 		if expCall == nil {
 			R.bad(rule, kGenKey+":"+name, name+" = S^x mod N", "not found", P.Pos(fn.Pos()))
 			return
@@ -527,16 +609,6 @@ func generateKeyPairRule(P *Program, R *Report) {
 		R.decide(rule, kGenKey+":"+name+":x-range", "2 < x < N was tested", lo.Holds && hi.Holds, lo.Path+hi.Path, P.Pos(expCall.Pos()))
 	}
 	var zExp, rExp *ssa.Call
-	// the list that becomes pk.R (filled in place, or built as a local and assigned afterwards)
-	var rList ssa.Value
-	for _, s := range sinksOf(fn) {
-		if s.target == "new:gabikeys.PublicKey.R" {
-			rList = s.val
-			if ct, ok := rList.(*ssa.ChangeType); ok {
-				rList = ct.X
-			}
-		}
-	}
 	filesIntoR := func(c *ssa.Call) bool {
 		if _, isMake := rList.(*ssa.MakeSlice); !isMake {
 			return false
